@@ -235,7 +235,7 @@ def check_maze(ctx, mz, flavour, mode, reqs=None, pend=None, stored_tokens=None)
         ctx.case(dict(f=flavour, m=mode, k=mj["kind"], n=mj["rows"], e=mj["edges"], s=mj.get("start"), t=mj.get("end"), p=mj.get("solution"), str=as_str),
                  nontrivial=len(mj["edges"]) > 0)
         ctx.count(f"kind={mj['kind']}"); ctx.count(f"flavour={flavour}"); ctx.count(f"mode={mode}"); ctx.count(f"n={mj['rows']}")
-        for cls in ((type(mz), LM) if ctx.rng.random() < 0.2 else (type(mz),)):
+        for cls in ((LM, TLM, SM) if ctx.rng.random() < 0.5 else (type(mz),)):   # the kind comes from the tokens, whichever class parses them
             try:
                 back = cls.from_tokens(inp, tok)
                 why = same_maze(mz, back)
